@@ -98,9 +98,165 @@ def histories(ctx):
     return hs
 
 
+# ---------------------------------------------------------------- regrafted lambdas (outside the stream model)
+# A lambda - or a part of one - taken out of the query of a live stream and handed, as an ast object, to an operator of
+# another dataset.  The nodes of a processed lambda carry non-field attributes of the library's own (`_old_ast` on calls whose
+# defaults were filled in), and the second dataset's class model fills in other defaults: nothing of that may show in the
+# first stream.  The lambda processing is an input of Model/Stream.v, so this is a direct oracle on the implementation.
+
+from typing import Iterable  # noqa: E402
+
+
+class InfoA:
+    def met(self, scale: float = 1.0) -> float: ...
+
+
+class JetA:
+    def pt(self, unit: int = 1) -> float: ...
+
+
+class EvA:
+    def info(self) -> InfoA: ...
+    def jets(self) -> Iterable[JetA]: ...
+    def met(self, unit: int = 1) -> float: ...
+
+
+class InfoB:
+    def met(self, scale: float = 1.0, calib: bool = True) -> float: ...
+
+
+class JetB:
+    def pt(self, unit: int = 7, tag: str = "b") -> float: ...
+
+
+class EvB:
+    def info(self, version: int = 5) -> InfoB: ...
+    def jets(self, coll: str = "kt") -> Iterable[JetB]: ...
+    def met(self, unit: int = 2, extra: int = 3) -> float: ...
+
+
+def _regraft_classes():
+    return EvA, EvB
+
+
+REGRAFT_LAMBDAS = [
+    ("Select", "lambda e: e.info().met()"),
+    ("Select", "lambda e: e.met() + e.info().met(2.0)"),
+    ("Where", "lambda e: e.info().met() > 10"),
+    ("Select", "lambda e: e.jets().Select(lambda j: j.pt())"),
+    ("SelectMany", "lambda e: e.jets()"),
+    ("Select", "lambda e: (e.met(), e.jets().Where(lambda j: j.pt() > e.met()).Count())"),
+    ("Select", "lambda e: {'m': e.met(), 'i': e.info().met()}"),
+]
+
+
+def _regraft_scenarios():
+    out = []
+    for i in range(len(REGRAFT_LAMBDAS)):
+        for how in ("string", "ast"):
+            for second in ("B", "A", "Any"):
+                for then in ("same-op", "Select-after-Select"):
+                    out.append({"lam": i, "how": how, "second": second, "then": then})
+    return out
+
+
+def _regraft_run(sn):
+    """Returns a description of the first change seen on an earlier stream, or None."""
+    import ast
+    from typing import Any
+    from func_adl import EventDataset
+
+    EvA, EvB = _regraft_classes()
+
+    class DS(EventDataset):
+        def __init__(self, t):
+            super().__init__(item_type=t)
+
+        async def execute_result_async(self, a, title=None):
+            return a
+
+    kind, src = REGRAFT_LAMBDAS[sn["lam"]]
+    first = ast.parse(src, mode="eval").body if sn["how"] == "ast" else src
+    live = []
+
+    def watch(st):
+        live.append((st, ast.dump(st.query_ast), st.item_type))
+
+    def changed(step):
+        for k, (st, d, it) in enumerate(live):
+            if ast.dump(st.query_ast) != d or st.item_type != it:
+                return "after %s: stream #%d was %s and is now %s" % (step, k, _unp(d), ast.unparse(st.query_ast))
+        return None
+
+    def _unp(d):
+        try:
+            return ast.unparse(eval(d, dict(vars(ast))))
+        except Exception:  # noqa
+            return d[:200]
+
+    s1 = getattr(DS(EvA), kind)(first)
+    watch(s1)
+    lam_node = s1.query_ast.args[1]
+    t2 = {"A": EvA, "B": EvB, "Any": Any}[sn["second"]]
+    try:
+        s2 = getattr(DS(t2), kind)(lam_node)
+        watch(s2)
+    except ValueError:
+        pass
+    x = changed("handing stream #0's lambda to %s of a dataset of %s" % (kind, sn["second"]))
+    if x:
+        return x
+    if sn["then"] == "Select-after-Select" and kind == "Select":
+        # the processed lambda once more, to a third dataset, and the second stream's lambda back to the first class model
+        try:
+            s3 = DS(EvB).Select(lam_node)
+            watch(s3)
+            s4 = DS(EvA).Select(live[1][0].query_ast.args[1]) if len(live) > 1 else None
+            if s4 is not None:
+                watch(s4)
+        except ValueError:
+            pass
+        x = changed("handing the lambdas on once more")
+        if x:
+            return x
+    for st, _, _ in list(live):
+        try:
+            st.value()
+        except Exception:  # noqa
+            pass
+    return changed("executing every stream")
+
+
+def regraft_oracle(ctx, only=None):
+    import core
+    n = 0
+    for sn in _regraft_scenarios():
+        if only is not None and sn != only:
+            continue
+        n += 1
+        ctx.evaluations += 1
+        try:
+            x = _regraft_run(sn)
+        except Exception as ex:  # noqa
+            x = None
+            ctx.count("regraft", "scenario raised %s" % type(ex).__name__)
+        ctx.count("regraft", "changed an earlier stream" if x else "all earlier streams unchanged")
+        if x:
+            kind, src = REGRAFT_LAMBDAS[sn["lam"]]
+            ctx.fail("failing-input", "C11 oracle 'regraft': DS(EvA).%s(%s) [%s], then its processed lambda object handed to another "
+                     "dataset: %s" % (kind, src, sn["how"], x), {"oracle": "regraft", "scenario": sn},
+                     key=core.digest({"p": ID, "regraft": sn}))
+    ctx.notes.append("regraft oracle: %d scenarios (a processed lambda taken from a live stream's query handed to operators of other "
+                     "datasets with other class models; every earlier stream's dump and item type re-read after every step)" % n)
+
+
 def run(ctx):
     sc.check_histories(ctx, ID, histories(ctx), "history")
+    regraft_oracle(ctx)
 
 
 def replay(ctx, w):
+    if w.get("oracle") == "regraft":
+        regraft_oracle(ctx, only=w["scenario"])
+        return
     sc.replay_history(ctx, ID, w)
